@@ -11,8 +11,12 @@ sys.path.insert(0, HERE)
 sys.path.insert(0, "/repo")
 IDS = ["C%02d" % i for i in range(1, 21)]
 
+READY = set(open(os.path.join(HERE, "tools", "ready.txt")).read().split())
 checks, na = [], []
 for pid in IDS:
+    if pid not in READY:
+        na.append({"property_id": pid, "reason": "check under construction (planned in DESIGN.md section 3)"})
+        continue
     try:
         mod = importlib.import_module("pbt.props." + pid.lower())
     except ModuleNotFoundError as e:
